@@ -1447,6 +1447,53 @@ def oracle_failed_updates(ctx, d):
                           "after": repr(after) if isinstance(after, Raised) else np.asarray(after, dtype=float).tolist(), "before": np.asarray(before).tolist()})
 
 
+def oracle_wrapper_kernel(ctx, d):
+    """HeterogeneousModel(KernelInterpolation(kernel), label image) on (H, W, 3) colour signals - the documented use of the wrapper
+    (MultichromaticTracerAnalysis): every pixel must get the interpolation of ITS label evaluated at its colour."""
+    nrng = np.random.default_rng(ctx.rng.randrange(2**31))
+    for trial in range(ctx.pick(6, 40)):
+        kname = "GaussianKernel" if trial % 2 == 0 else "LinearKernel"
+        L = int(nrng.integers(1, 4))
+        H, W = int(nrng.integers(2, 4)), int(nrng.integers(2, 5))
+        labs = np.concatenate([np.arange(L), nrng.integers(0, L, H * W - L)])
+        nrng.shuffle(labs)
+        label_values = np.sort(nrng.choice(40, L, replace=False))
+        lab = label_values[labs].reshape(H, W).astype(np.uint8)
+        sig = nrng.uniform(0, 3, (H, W, 3))
+        ctx.count(("wrapper-kernel", kname, L, H, W))
+        hm = call(d.HeterogeneousModel, d.KernelInterpolation(_kernel(d, kname)), d.Image(lab, dimensions=[1.0, 1.0], scalar=True))
+        if isinstance(hm, Raised):
+            ctx.fail("C14:HeterogeneousModel(KernelInterpolation).__init__:raises", repr(hm), {"labels": lab.tolist()})
+            continue
+        per = {}
+        bad = None
+        for l in np.unique(lab):
+            n = int(nrng.integers(1, 4))
+            S, V = gen_supports(nrng, kname, n), nrng.integers(0, 17, n) / 16
+            r = call(hm[l].update, supports=S.copy(), values=V.copy())
+            if isinstance(r, Raised):
+                bad = {"what": f"update of the interpolation of label {int(l)} raises {r!r}"}
+                break
+            per[int(l)] = hm[l]
+        out = None if bad else call(hm, sig.copy())
+        if bad is None and (isinstance(out, Raised) or np.asarray(out).shape != (H, W)):
+            bad = {"what": f"call on an (H, W, 3) signal: {out!r}"[:200]}
+        if bad is None:
+            for l, ki in per.items():
+                reg = lab == l
+                want = np.asarray(_plain_eval(d, ki.kernel, ki, sig[reg]), dtype=float)
+                if not np.allclose(np.asarray(out)[reg], want, atol=1e-5, rtol=1e-5):
+                    k = int(np.argmax(np.abs(np.asarray(out)[reg] - want)))
+                    bad = {"what": "a pixel does not carry the interpolation of its own label", "label": l, "observed": float(np.asarray(out)[reg][k]), "required": float(want[k])}
+                    break
+                others = [o for o in per if o != l]
+                if others and len({id(per[o]) for o in per}) != len(per):
+                    bad = {"what": "the per-label copies of the interpolation are one shared object"}
+        if bad:
+            ctx.fail("C14:HeterogeneousModel(KernelInterpolation).__call__:per-label", "label-wise kernel interpolation on a colour signal: " + bad["what"],
+                     {"labels": lab.tolist(), "kernel": kname, **bad})
+
+
 def oracle_kernel(ctx, d):
     rng = np.random.default_rng(ctx.rng.randrange(2**31))
     worst_rep, worst_numba = 0.0, 0.0
@@ -1643,6 +1690,7 @@ def run(ctx):
     oracle_label_sequences(ctx, d)
     oracle_kernel(ctx, d)
     oracle_kernel_sequences(ctx, d)
+    oracle_wrapper_kernel(ctx, d)
     kernel_state_correspondence(ctx, d)
     linear_kernel_correspondence(ctx, d)
     oracle_kernel_parameters(ctx, d)
@@ -1654,7 +1702,9 @@ def run(ctx):
         "kernel interpolation: exp, np.linalg.inv, float32 casts and numba kernels are observed with tolerances, not modelled",
         "failed updates: every update path is executed with raising arguments and the object must behave as before (oracle + correspondence, which "
         "evaluates the model after every failing update); the static order of assignments vs raising statements is recorded under update_paths_static",
-        "label-wise thresholding and the HeterogeneousModel wrapper accept 2-D signals only (a (H,W,C) signal raises a broadcasting error); "
+        "signal shapes (decided from docs and usage): HeterogeneousModel is used on (H,W,3) colour signals with per-label KernelInterpolation "
+        "(MultichromaticTracerAnalysis) - checked by the oracle and modelled generically (wrapCallG); with element-wise sub-models it takes (H,W) only; "
+        "label-wise StaticThresholdModel documents scalar signals (img: np.ndarray, thresholds per label) - (H,W,C) raises and is outside the API; "
         "HeterogeneousLinearModel takes (H,W) and (H,W,C) signals with 2-D labels (both in the tie)",
     ]
     import shutil
